@@ -32,7 +32,14 @@ func fields(line string) []string { return strings.Fields(line) }
 // rng is a tiny deterministic PRNG (splitmix64) so op scripts replay exactly from one seed.
 type rng struct{ s uint64 }
 
-func newRng(seed int64) *rng { return &rng{s: uint64(seed)*0x9E3779B97F4A7C15 + 0x1234567} }
+// newRng scrambles the seed first (splitmix finaliser) so that consecutive seeds give unrelated
+// streams rather than the same stream shifted by one draw.
+func newRng(seed int64) *rng {
+	z := uint64(seed) + 0x9E3779B97F4A7C15
+	z = (z ^ (z >> 30)) * 0xBF58476D1CE4E5B9
+	z = (z ^ (z >> 27)) * 0x94D049BB133111EB
+	return &rng{s: z ^ (z >> 31)}
+}
 func (r *rng) u64() uint64 {
 	r.s += 0x9E3779B97F4A7C15
 	z := r.s
